@@ -131,6 +131,18 @@ CHECKS = {
 NOT_YET = {}
 
 
+def fix_commits():
+    import subprocess
+    try:
+        out = subprocess.run(['git', '-C', '/repo', 'log', '--format=%h %s'], stdout=subprocess.PIPE, text=True).stdout
+        return [l.split()[0] for l in out.split('\n') if ' fix:' in l][::-1]
+    except Exception:
+        return []
+
+
+FIXES = fix_commits()
+
+
 def main():
     props = [json.loads(l) for l in open(os.path.join(VERIF, 'properties.jsonl'))]
     checks = []
@@ -156,12 +168,16 @@ def main():
         'version': 1,
         'setup_cmd': 'cd lean/FFVerif && lake build',
         'hooks': {'guard': 'FFPACK_VERIF', 'enable': 'no hook in ffpack is needed: all observation points are public return values or numpy.random wrapped from outside; checks import /repo/src in-process',
-                  'baseline_off_cmd': BASE, 'source_commits': [], 'add_only': True},
+                  'baseline_off_cmd': BASE, 'source_commits': FIXES, 'add_only': True},
         'engines': [
-            {'name': 'list', 'path': 'harness/cyc.py + lean/FFVerif/FFVerif/Model/Cycle.lean', 'serves_properties': ['C01', 'C02', 'C03', 'C04', 'C05', 'C06', 'C07', 'C19'], 'kind_free_text': 'hand-written Lean models of the list algorithms, exact correspondence on the dyadic grid'},
+            {'name': 'list', 'path': 'harness/cyc.py + lean/FFVerif/FFVerif/Model/{Cycle,Level,Signal,Matrix}.lean', 'serves_properties': ['C01', 'C02', 'C03', 'C04', 'C05', 'C06', 'C07', 'C19'], 'kind_free_text': 'hand-written Lean models of the list algorithms, exact correspondence on the dyadic grid'},
+            {'name': 'formula', 'path': 'harness/translate.py + harness/gen.py + lean/FFVerif/FFVerif/Gen/*.lean', 'serves_properties': ['C08', 'C09', 'C12', 'C18', 'C20'], 'kind_free_text': 'Python-AST to Lean translator (generic scalar), translation validation at Float, theorems at the reals'},
+            {'name': 'oracle-stream', 'path': 'lean/FFVerif/FFVerif/Model/{Arma,Sampler,Subset}.lean', 'serves_properties': ['C13', 'C14', 'C16'], 'kind_free_text': 'models with the randomness as a parameter; scripted / observed oracle streams, trace validation'},
+            {'name': 'state-machine', 'path': 'lean/FFVerif/FFVerif/Model/Seed.lean', 'serves_properties': ['C15'], 'kind_free_text': 'seeding contract as a state machine, protocol conformance + replay'},
+            {'name': 'real-analysis', 'path': 'lean/FFVerif/FFVerif/Proofs/{C10,C11,C17}.lean', 'serves_properties': ['C10', 'C11', 'C17'], 'kind_free_text': 'Mathlib theorems about the exact methods, tolerance tie to the implementation'},
         ],
         'checks': checks,
-        'notes': 'Technique family: machine-checked proof in Lean 4 (see DESIGN.md). VERIF_SEED seeds the single PRNG; VERIF_REPO (default /repo) is for self-tests only.',
+        'notes': 'Technique family: machine-checked proof in Lean 4 (see DESIGN.md). VERIF_SEED seeds the single PRNG; VERIF_REPO (default /repo) is for self-tests only. hooks.source_commits lists the unguarded fix: commits made in /repo (no guarded hook exists).',
         'not_applicable': na,
     }
     json.dump(m, open(os.path.join(VERIF, 'MANIFEST.json'), 'w'), indent=1)
